@@ -71,6 +71,9 @@ pub struct Variant {
     pub io: IoPlan,
     /// unrelated files present in the file system (conservation check)
     pub bystanders: Vec<(String, String)>,
+    /// standard output is a terminal
+    #[serde(default)]
+    pub stdout_tty: bool,
 }
 
 /// Hard faults, where C20 promises nothing: executed as non-gating probes (counted in the
@@ -222,9 +225,18 @@ fn gen_variant(rng: &mut Rng, scn_targets: usize, doc: &Doc, mode: Mode) -> Vari
         explicit_defaults: if rng.chance(1, 2) { 0 } else { rng.next() as u8 },
         order: rng.next(),
         short_mode_flag: rng.chance(1, 2),
-        env: gen_env(rng),
+        env: {
+            let mut env = gen_env(rng);
+            // variables that terminal-aware programs like to honour; none of them may matter
+            if rng.chance(1, 6) {
+                let (k, v) = *rng.pick(&[("NO_COLOR", "1"), ("CLICOLOR", "0"), ("CLICOLOR_FORCE", "1"), ("TERM", "dumb"), ("TERM", "xterm-256color"), ("COLUMNS", "40")]);
+                env.insert(k.to_string(), v.to_string());
+            }
+            env
+        },
         io: gen_io(rng),
         bystanders,
+        stdout_tty: rng.chance(1, 5),
     }
 }
 
@@ -285,6 +297,11 @@ pub fn generate(seed: u64) -> C20Scn {
         default_config_eighths: 4,
     };
     let mut doc = doc::generate(&mut rng, &p);
+    if rng.chance(1, 300) {
+        // degenerate inputs: nothing at all, or a single (blank) line
+        doc.nodes = if rng.chance(1, 2) { vec![] } else { vec![doc::Node::Line(String::new())] };
+        doc.pad = None;
+    }
     sanitize_names(&mut doc);
     crate::c19::avoid_known_c01_panic(&mut doc);
     let mode = *rng.pick(&[Mode::Clean, Mode::Clean, Mode::Clean, Mode::List, Mode::ListAll]);
@@ -470,7 +487,7 @@ pub fn build_exec(scn: &C20Scn, v: &Variant, text: &str) -> (Fs, Exec, Option<St
             }
         }
     }
-    (fs, Exec { argv, stdin, env: v.env.clone(), clock, io: v.io.clone() }, out_path)
+    (fs, Exec { argv, stdin, env: v.env.clone(), clock, io: v.io.clone(), stdout_tty: v.stdout_tty }, out_path)
 }
 
 pub fn run(scn: &C20Scn, stats: &mut RunStats) -> Option<Violation> {
@@ -965,6 +982,9 @@ pub fn shrink_candidates(s: &C20Scn) -> Vec<C20Scn> {
         }
         let mut nv = v.clone();
         nv.bystanders.clear();
+        push(nv);
+        let mut nv = v.clone();
+        nv.stdout_tty = false;
         push(nv);
         let mut nv = v.clone();
         nv.explicit_defaults = 0;
